@@ -7,12 +7,12 @@ Enumerated on the real code:
            that cross-pixel interference changes the expected band), x min/max measure x every ambiguity / risk /
            interval_bounds parameter set, step called exactly as the state machine calls it; interval bounds are
            followed by the real winner-takes-all step (bracket clause).
-  level 0  "small": every volume of two pixels over the alphabet (global minimum / maximum / range of the volume vary,
+  level 2  "small": every volume of two pixels over the alphabet (global minimum / maximum / range of the volume vary,
            one- and two-pixel percentile normalisation), all parameter sets on each.
   level 1  "reg": ambiguity band + interval_bounds with and without regularisation (quantile 1) on the packed
            volumes, for every ambiguity threshold / kernel size / vertical depth of a small grid.
-  level 1  "std": std_intensity on every few-symbol image of the smallest shapes and on generic images x windows.
-  level 2  "pipe": the real `pandora.run` with every sequence of <= 3 confidence steps (4 methods, repetition
+  level 0  "std": std_intensity on every few-symbol image of the smallest shapes and on generic images x windows.
+  level 1  "pipe": the real `pandora.run` with every sequence of <= 3 confidence steps (4 methods, repetition
            allowed) x every placement of suffixed / unsuffixed step names, inserted after the matching cost and
            around an aggregation step, compared with the same pipeline without them (differential oracle), every
            band value checked against the reference on the cost volume the step really saw.
@@ -58,10 +58,10 @@ ASSUMPTIONS = [
     "std_intensity values are checked on the left product only (the right one is C08's mirrored problem); "
     "images without NaN samples",
     "regularisation: 'only widens' is evaluated where the unregularised bound is finite",
-    "alphabets {NaN,0,2,4,8}, {NaN,0,1,3,16}, {NaN,4,5,8}; 2..4 disparities; images 6x8 / 8x10 (masked) / 9x12 (window 5) for pipelines",
+    "alphabets {NaN,0,2,4,8}, {NaN,0,1,3,16}, {NaN,4,5,8} ({NaN,0,2,8} for two-pixel volumes of 3 disparities); 2..4 disparities; images 6x8 / 8x10 (masked) / 9x12 (window 5) for pipelines",
 ]
 
-ALPHAS = {"a8": [None, 0, 2, 4, 8], "a16": [None, 0, 1, 3, 16], "a48": [None, 4, 5, 8]}
+ALPHAS = {"a8": [None, 0, 2, 4, 8], "a16": [None, 0, 1, 3, 16], "a48": [None, 4, 5, 8], "a8s": [None, 0, 2, 8]}
 ETAS = [(0.5, 0.125), (0.75, 0.25), (0.7, 0.01)]
 THRS = [0.0, 0.5, 0.9, 1.0]
 INVALID_BITS = 0b01111000011
@@ -234,21 +234,28 @@ def spaces(tier, seed):
     for alpha in (["a8", "a16"] if quick else alphas):
         na = len(ALPHAS[alpha])
         for nd in ([2] if quick or alpha != "a8" else [2, 3]):
+            if quick and alpha != "a8":
+                continue  # quick: two-pixel volumes over {NaN,0,2,4,8} only
             shapes = [[1, 2], [2, 1]]
-            total = na ** (2 * nd)
+            alpha2, na2 = alpha, na
+            if nd == 3:
+                alpha2, na2 = "a8s", len(ALPHAS["a8s"])  # 3 disparities: {NaN,0,2,8} (4^6 volumes per type)
+            total = na2 ** (2 * nd)
             block = 25 if nd == 2 else 125
             for t in ("min", "max"):
                 for si, shape in enumerate(shapes):
                     if (quick or nd == 3) and (si + seed + (t == "max")) % 2:
                         continue
                     for lo in range(0, total, block):
-                        small.append({"kind": "small", "alpha": alpha, "nd": nd, "type": t, "shape": shape,
-                                      "lo": lo, "hi": min(total, lo + block), "lean": 1 + seed % 3 if quick else 0})
+                        small.append({"kind": "small", "alpha": alpha2, "nd": nd, "type": t, "shape": shape,
+                                      "lo": lo, "hi": min(total, lo + block),
+                                      "lean": 1 + seed % 3 if (quick or nd == 3) else 0})
         # single-pixel volumes (the volume's range is the pixel's range)
         for nd in (2, 3):
             for t in ("min", "max"):
-                small.append({"kind": "small", "alpha": alpha, "nd": nd, "type": t, "shape": [1, 1],
-                              "lo": 0, "hi": na ** nd})
+                for lo in range(0, na ** nd, 25):
+                    small.append({"kind": "small", "alpha": alpha, "nd": nd, "type": t, "shape": [1, 1],
+                                  "lo": lo, "hi": min(na ** nd, lo + 25), "lean": 1 + seed % 3 if quick else 0})
     # std_intensity
     std = []
     for (ny, nx, win, nsym) in ([(3, 3, 3, 2), (1, 2, 1, 3)] if quick else
@@ -267,11 +274,11 @@ def spaces(tier, seed):
                                 "hi": hi, "pre": variant % 2 * 2, "sfx": ["", ".w"][variant % 2]})
     return [
         {"name": "packed per-pixel vectors x step parameters", "level": 0, "cases": packed, "chunk": 4},
-        {"name": "all two-pixel and one-pixel volumes x step parameters", "level": 0, "cases": small, "chunk": 1},
+        {"name": "std_intensity on few-symbol and generic images", "level": 0, "cases": std, "chunk": 8},
         {"name": "interval regularisation grid on packed volumes", "level": 1, "cases": reg, "chunk": 4},
-        {"name": "std_intensity on few-symbol and generic images", "level": 1, "cases": std, "chunk": 8},
-        {"name": "pipelines with <= 3 confidence steps vs the same pipeline without", "level": 2,
+        {"name": "pipelines with <= 3 confidence steps vs the same pipeline without", "level": 1,
          "cases": pipe_cases(tier, seed), "chunk": 4},
+        {"name": "all two-pixel and one-pixel volumes x step parameters", "level": 2, "cases": small, "chunk": 1},
     ]
 
 
@@ -389,7 +396,40 @@ def _pix(costs, r, c):
 # ----------------------------------------------------------------------------------------------
 # value oracles
 # ----------------------------------------------------------------------------------------------
+def _max_reading_class(checker, t, *args, **kwargs):
+    """
+    For a max-type measure whose value clause failed: does the observation match the documented definition
+    evaluated with the MINIMUM as the pixel's best (the recorded finding A9)?  Anything else gets its own key,
+    so the known finding does not hide a different failure on similarity measures.
+    """
+    if t != "max":
+        return ""
+    probe = V()
+    checker(probe, *args, **kwargs)
+    return "" if not probe.items else "/not even with the minimum taken as best"
+
+
 def check_ambiguity(viol, site, costs, t, cfg, band, raw_counts=None):
+    inner = V()
+    _check_ambiguity(inner, site, costs, t, cfg, band, raw_counts)
+    for it in inner.items:
+        sfx = ""
+        if it["clause"] == "ambiguity-definition":
+            sfx = _max_reading_class(lambda pv: _check_ambiguity(pv, site, costs, "min", cfg, band, raw_counts), t)
+        viol.bad(it["clause"], it["key"].split("/", 2)[2] + sfx, it["detail"])
+
+
+def check_risk(viol, site, costs, t, cfg, rmax, rmin, values=True):
+    inner = V()
+    _check_risk(inner, site, costs, t, cfg, rmax, rmin, values)
+    for it in inner.items:
+        sfx = ""
+        if it["clause"] == "risk-definition":
+            sfx = _max_reading_class(lambda pv: _check_risk(pv, site, costs, "min", cfg, rmax, rmin, values), t)
+        viol.bad(it["clause"], it["key"].split("/", 2)[2] + sfx, it["detail"])
+
+
+def _check_ambiguity(viol, site, costs, t, cfg, band, raw_counts=None):
     em, es, norm = cfg["eta_max"], cfg["eta_step"], cfg["normalization"]
     readings = []
     allnan = np.isnan(costs).all(axis=2)
@@ -453,7 +493,7 @@ def check_ambiguity(viol, site, costs, t, cfg, band, raw_counts=None):
              f"pixel {divmod(int(j), nx)} {_pix(costs, *divmod(int(j), nx))} count>= {lo.reshape(-1)[j]} ({name}, type={t})")
 
 
-def check_risk(viol, site, costs, t, cfg, rmax, rmin, values=True):
+def _check_risk(viol, site, costs, t, cfg, rmax, rmin, values=True):
     rmax = rmax.astype(np.float64)
     rmin = rmin.astype(np.float64)
     allnan = np.isnan(costs).all(axis=2)
@@ -650,7 +690,7 @@ def run_small(case):
         for ci, cfg in enumerate(menu):
             if case.get("lean") and cfg["confidence_method"] != "interval_bounds" and \
                     (cfg["eta_max"], cfg["eta_step"]) != ETAS[(code + case["lean"]) % 3]:
-                continue  # quick tier: one eta grid per volume (rotating), every threshold
+                continue  # quick tier / 3 disparities: one eta grid per volume (rotating), every threshold
             calls, dig = step_on_volume(viol, "step", costs, disps, t, cfg, ["", ".s1"][(code + ci) % 2],
                                         [0, 2][(code // 3 + ci) % 2], exact)
             n += calls
